@@ -59,7 +59,8 @@ def basis(bits, dim=2):
 def scalar_value(b):
     g, a = b["g"], b["a"]
     if g == "sqrt":
-        return cmath.sqrt(a[0])
+        z = a[0]
+        return cmath.sqrt(complex(*z) if isinstance(z, (list, tuple)) else z)
     return complex(a[0], a[1])
 
 
